@@ -58,6 +58,8 @@ func unionRules(c *Ctx) {
 	normaliserRule(c, "sbom.(*NodeList).Union", false)
 	normaliserRule(c, "sbom.(*NodeList).Add", true)
 	lookupCriterionRule(c, "sbom.(*NodeList).GetEdgeByType")
+	lookupReturnsElement(c, "sbom.(*NodeList).GetEdgeByType")
+	mergeAppendsOnlyAbsent(c, "sbom.(*NodeList).Union", "sbom.(*NodeList).Add")
 
 	const RP = "merge-callee"
 	c.rule(RP, "Union merges an existing node with Update, Add with Augment, and in both the argument of the merge call derives from the argument list's node, the receiver of the call from the result/receiver side")
